@@ -301,7 +301,10 @@ def gen_field(tape, kind, label, noncanon, ctx):
     if kind == "listint":
         n = ctx.get("list_len", 1)
         t = ",".join(gen_int(tape, label, False, maxw=4) for _ in range(n))
-        if ctx.get("list_trailing_comma"):
+        tc = ctx.get("list_trailing_comma")
+        if tc == "mixed":                 # both spellings within one file: decided per list
+            tc = tape.boolean(label + ".tc")
+        if tc:
             t += ","
         return t
     if kind == "rgb":
@@ -377,7 +380,8 @@ def gen_records(tape, fmt, max_records, noncanon=True, min_records=1, style=None
         # 0: all integers, 1: all '.', 2: mixed ('.' next to integers)
         mixed_w = (4 if style.get("prefer_mixed_optint") else 1) if style.get("allow_mixed_optint") else 0
         ctx["optint_mode"] = tape.weighted([(6, 0), (0 if style.get("no_missing") else 1, 1), (mixed_w, 2)], "optint_mode")
-    ctx["list_trailing_comma"] = (tape.boolean("list_tc", 1, 3) and not style.get("no_list_trailing_comma")) \
+    ctx["list_trailing_comma"] = (tape.weighted([(4, False), (1, True), (2, "mixed")], "list_tc")
+                                  if not style.get("no_list_trailing_comma") else False) \
         if any(k == "listint" for _, k in fmt.fields) else False
     ctx["float_dotless"] = bool(style.get("float_dotless"))
     if any(k == "vcfgt" for _, k in fmt.fields):
